@@ -696,6 +696,12 @@ def comp_names(world, c):
     return names
 
 
+def shares_eigenvalues(world):
+    """Worlds in which two blocks share an unperturbed eigenvalue: whether a request needs the ill-defined
+    quantity (and raises) depends on which zeros are already known, so only values are compared there."""
+    return bool(world.get("illposed") or world.get("sectors"))
+
+
 def world_box(world):
     return world.get("box", BOX[world["npert"]])
 
@@ -1063,7 +1069,7 @@ class GraphProp:
                 pick = touched[:: max(1, len(touched) // self.single_fresh)][: self.single_fresh]
                 for op in pick:
                     key = (op[1], op[2], op[3], op[4], tuple(op[5]))
-                    if key not in table or table[key][0] == "raise" or world.get("illposed"):
+                    if key not in table or table[key][0] == "raise" or shares_eigenvalues(world):
                         continue
                     alone = fresh_single(world, key)
                     bump("single_fresh_checked")
@@ -1177,7 +1183,7 @@ class GraphProp:
         if isinstance(raised, Poisoned):
             env.events.append(("raise", opi, "Poisoned"))
             return "raised"  # reported through env.poison_touched
-        ill = bool(sim.w.get("illposed"))
+        ill = shares_eigenvalues(sim.w)
         if raised is not None:
             env.events.append(("raise", opi, type(raised).__name__))
             if exp_raise or may_raise:
@@ -1258,13 +1264,13 @@ class GraphProp:
                         if isinstance(x, TracerOverflow):
                             raise TracerOverflow() from None
                         x = x.__cause__ or x.__context__
-                    ill = bool(world.get("illposed")) and isinstance(e, ValueError) and "share eigenvalues" in str(e)
+                    ill = shares_eigenvalues(world) and isinstance(e, ValueError) and "share eigenvalues" in str(e)
                     if want[0] != "raise" and not ill:
                         fail("final-raise", f"final sweep: {key} raised {type(e).__name__}: {e} (a fresh computation returns a value)")
                         return
                     continue
                 if want[0] == "raise":
-                    if not world.get("illposed"):
+                    if not shares_eigenvalues(world):
                         fail("outcome-history-dependent", f"final sweep: {key} returned a value, a fresh computation raises {want[1]}")
                         return
                     continue
